@@ -975,6 +975,12 @@ func (t *tree) parseExpr(prec int) ast.Node {
 		if !isBinaryOp(tok.typ) || q < prec {
 			break
 		}
+		if tok.typ == itemElvis {
+			// ?: shares the lowest level with the ternary and both group from the
+			// right: a ?: b ? c : d is a ?: (b ? c : d).
+			n = newBinaryOpNode(tok, n, t.parseExpr(0))
+			continue
+		}
 		q++
 		n = newBinaryOpNode(tok, n, t.parseExpr(q))
 	}
